@@ -10,6 +10,7 @@ import (
 	"path/filepath"
 	"sort"
 	"strings"
+	"time"
 )
 
 // A View ties one slice of the real code to the Lean model: Gen produces input
@@ -43,15 +44,17 @@ type Mismatch struct {
 type OracleFail struct {
 	Line string   `json:"line"`
 	Tags []string `json:"tags"`
-	Go   string `json:"go"`
-	Why  string `json:"why"`
+	Go   string   `json:"go"`
+	Why  string   `json:"why"`
 }
 
 type Report struct {
-	View         string         `json:"view"`
-	Seed         uint64         `json:"seed"`
-	Cases        int            `json:"cases"`
-	CorpusCases  int            `json:"corpus_cases"`
+	View        string `json:"view"`
+	Seed        uint64 `json:"seed"`
+	Cases       int    `json:"cases"`
+	CorpusCases int    `json:"corpus_cases"`
+	// Hang: the line on which the real code did not return within the per-case deadline (the run stops there)
+	Hang         string         `json:"hang,omitempty"`
 	Distinct     int            `json:"distinct"`
 	Tags         map[string]int `json:"tags"`
 	Kinds        int            `json:"kinds"`
@@ -147,9 +150,20 @@ type ModelExecer interface {
 
 // safeExecModel is safeExec that also yields the line to hand to the model.
 func safeExecModel(v View, line string) (out, oracle string, tags []string, modelLine string) {
+	if hangLine != "" {
+		return "HANG", "", nil, line
+	}
+	if !withWatchdog(caseDeadline, func() { out, oracle, tags, modelLine = safeExecModel0(v, line) }) {
+		hangLine = line
+		return "HANG", "", nil, line
+	}
+	return
+}
+
+func safeExecModel0(v View, line string) (out, oracle string, tags []string, modelLine string) {
 	me, ok := v.(ModelExecer)
 	if !ok {
-		o, w, t := safeExec(v, line)
+		o, w, t := safeExec0(v, line)
 		return o, w, t, line
 	}
 	defer func() {
@@ -164,7 +178,21 @@ func safeExecModel(v View, line string) (out, oracle string, tags []string, mode
 }
 
 // safeExec runs v.Exec and turns a panic of the real code into an output.
+// hangLine is set when the real code did not return on a line; after that nothing is executed any more
+var hangLine string
+
 func safeExec(v View, line string) (out, oracle string, tags []string) {
+	if hangLine != "" {
+		return "HANG", "", nil
+	}
+	if !withWatchdog(caseDeadline, func() { out, oracle, tags = safeExec0(v, line) }) {
+		hangLine = line
+		return "HANG", "", nil
+	}
+	return
+}
+
+func safeExec0(v View, line string) (out, oracle string, tags []string) {
 	defer func() {
 		if r := recover(); r != nil {
 			out = fmt.Sprintf("PANIC %v", r)
@@ -181,6 +209,9 @@ func shrink(v View, line string, bad func(string) bool) string {
 	for round := 0; round < 200; round++ {
 		improved := false
 		for _, cand := range v.Shrink(cur) {
+			if hangLine != "" {
+				return cur
+			}
 			if len(cand) < len(cur) && bad(cand) {
 				cur = cand
 				improved = true
@@ -208,6 +239,13 @@ func runView(v View, seed uint64, n int, driver, corpusDir string) *Report {
 	seen := map[string]bool{}
 	for i, l := range lines {
 		out, oracle, tags, ml := safeExecModel(v, l)
+		if hangLine != "" {
+			// the real code spins or blocks: nothing after this case can be trusted (package-level state is in use
+			// by the stuck goroutine), so the run ends here and says so
+			rep.Hang = hangLine
+			rep.Cases = i + 1
+			return rep
+		}
 		goOuts[i] = out
 		modelLines[i] = ml
 		if !seen[l] {
@@ -222,8 +260,16 @@ func runView(v View, seed uint64, n int, driver, corpusDir string) *Report {
 			if k := strings.Index(pid, ":"); k > 0 {
 				pid = pid[:k+1]
 			}
-			small := shrink(v, l, func(c string) bool { _, o, _ := safeExec(v, c); return strings.Contains(o, pid) })
+			small := l
+			if len(rep.OracleFails) < shrinkBudget {
+				small = shrink(v, l, func(c string) bool { _, o, _ := safeExec(v, c); return strings.Contains(o, pid) })
+			}
 			o2, w2, t2 := safeExec(v, small)
+			if hangLine != "" {
+				rep.Hang = hangLine
+				rep.Cases = i + 1
+				return rep
+			}
 			rep.OracleFails = append(rep.OracleFails, OracleFail{Line: small, Go: o2, Why: w2, Tags: t2})
 		}
 	}
@@ -238,14 +284,21 @@ func runView(v View, seed uint64, n int, driver, corpusDir string) *Report {
 			break
 		}
 		if modelOuts[i] != goOuts[i] && len(rep.Mismatches) < 20 {
-			small := shrink(v, lines[i], func(c string) bool {
-				g, _, _, ml := safeExecModel(v, c)
-				m, err := runDriver(driver, []string{ml})
-				return err == nil && len(m) == 1 && m[0] != g
-			})
+			small := lines[i]
+			if len(rep.Mismatches) < shrinkBudget {
+				small = shrink(v, lines[i], func(c string) bool {
+					g, _, _, ml := safeExecModel(v, c)
+					m, err := runDriver(driver, []string{ml})
+					return err == nil && len(m) == 1 && m[0] != g
+				})
+			}
 			g, o, tg, ml := safeExecModel(v, small)
 			_, _, tg0 := safeExec(v, lines[i])
 			m, _ := runDriver(driver, []string{ml})
+			if hangLine != "" {
+				rep.Hang = hangLine
+				return rep
+			}
 			mm := Mismatch{Line: small, Go: g, Oracle: o, Tags: append(tg, tg0...), OrigLine: lines[i], OrigGo: goOuts[i], OrigModel: modelOuts[i]}
 			if len(m) == 1 {
 				mm.Model = m[0]
@@ -262,6 +315,26 @@ func runView(v View, seed uint64, n int, driver, corpusDir string) *Report {
 		rep.Samples = append(rep.Samples, s)
 	}
 	return rep
+}
+
+// shrinkBudget: how many failures / disagreements of one run are minimised (the rest are reported as found)
+const shrinkBudget = 5
+
+// caseDeadline bounds one case on the real code (cases take milliseconds; the largest buffer cases < 1 s)
+const caseDeadline = 60 * time.Second
+
+func withWatchdog(d time.Duration, f func()) bool {
+	done := make(chan struct{})
+	go func() {
+		defer close(done)
+		f()
+	}()
+	select {
+	case <-done:
+		return true
+	case <-time.After(d):
+		return false
+	}
 }
 
 func writeReport(path string, rep *Report) {
